@@ -21,7 +21,7 @@ from sim.core import Gen, Violation
 PROP = "C07"
 LEVEL = "exploration"
 HASH_VARIANTS = 1
-RUNS = {"quick": 2000, "thorough": 300000}
+RUNS = {"quick": 2000, "thorough": 150000}
 WALL_LIMIT = {"quick": 1200, "thorough": 5 * 3600}
 PROBES = ["permutation_checked", "onsets_unordered_warning_expected", "handler_reused", "delay_group", "duration_group",
           "temporal_marker", "cell_with_defect", "row_equality_checked", "row_superset_checked", "na_cells", "no_onset_column",
